@@ -69,6 +69,7 @@ impl WorldExec {
     pub fn new(frontend: &str, mode: &str) -> WorldExec {
         quiet_panics();
         *loader_faults() = (0, BTreeMap::new());
+        { let mut l = ledger(); l.created.clear(); l.dropped.clear(); }
         assets_manager::verif::set_yield_hook(Some(yield_hook));
         let known: Vec<u64> = HR_THREADS.lock().unwrap_or_else(|e| e.into_inner()).keys().copied().collect();
         let (local, via_any) = match frontend { "shared" => (false, false), "any" => (false, true), "local" => (true, false), _ => (true, true) };
@@ -298,6 +299,18 @@ impl WorldExec {
                 }
                 if self.sync() { "ok".into() } else { "sync-timeout".into() }
             }
+            // C13: the ownership ledger of tracked values (created by loaders / passed to get_or_insert; dropped)
+            "ledger" => { let l = ledger(); format!("c={} d={}", l.created.len(), l.dropped.len()) }
+            // C13: view the entry stored as type T at type R through the untyped handle
+            "view" if w.len() == 4 => {
+                let (t, r, id) = (w[1], w[2], s(3));
+                let c = self.any();
+                let out: Option<String> = with_storable!(t, T => c.get_cached::<T>(&id).map(|h| {
+                    let u = h.as_untyped();
+                    with_storable!(r, R => format!("ref={} is={} guard={}", u.downcast_ref::<R>().is_some(), u.is::<R>(), u.read().downcast::<R>().is_ok()), else "bad-op".to_string())
+                }), else Some("bad-op".to_string()));
+                out.unwrap_or_else(|| "absent".into())
+            }
             "rid" if w.len() == 3 => {
                 let id = s(2);
                 match self.rid_of(w[1], &id) { Some(r) => r.to_string(), None => "none".into() }
@@ -326,6 +339,11 @@ impl WorldExec {
     /// Handle numbers are "n-th distinct entry seen": a removed entry's address is forgotten (the allocator may
     /// reuse it for a new entry, which must get a new number); numbering continues.
     fn rekey(&mut self) {}
+
+    /// number of live cache entries whose value is tracked by the ownership ledger
+    pub fn live_tracked(&self) -> usize {
+        self.snapshot().keys().filter(|(t, _)| t.starts_with('S') || t.starts_with('M') || t == "N0").count()
+    }
 
     pub fn rid_of(&self, ty: &str, id: &str) -> Option<usize> {
         let c = self.any();
